@@ -421,9 +421,14 @@ class Interp:
         self.ops.assume(st.test, False, env2)
         b = self.exec_block(st.orelse, env2)
         outs: dict = {}
-        for r in (a, b):
-            for kind, (e, v) in r.items():
-                self._merge_out(outs, kind, e, v)
+        for kind, (e, v) in a.items():
+            self._merge_out(outs, kind, e, v)
+        for kind, (e, v) in b.items():
+            if kind not in outs and kind != RAISE:
+                # only the cloned branch reaches this flow: bring its state back into the original identities
+                self.adopt_env(env, e)
+                e = env
+            self._merge_out(outs, kind, e, v)
         return outs
 
     def taint_by(self, t, node) -> None:
@@ -631,6 +636,27 @@ class Interp:
                     pass
                 else:
                     ea.vars[k] = self.join_vals(va, vb, seen)
+            ea, eb = ea.parent, eb.parent
+
+    def adopt_env(self, a: Env, b: Env) -> None:
+        """Overwrites the state reachable from ``a`` with the state of its clone ``b`` (objects matched by oid)."""
+        seen = set()
+
+        def adopt_val(va, vb):
+            if isinstance(va, ObjV) and isinstance(vb, ObjV) and va.oid == vb.oid and va is not vb:
+                if va.oid in seen:
+                    return va
+                seen.add(va.oid)
+                for k2, fb in vb.fields.items():
+                    va.fields[k2] = adopt_val(va.fields.get(k2), fb)
+                va.payload = vb.payload
+                return va
+            return vb
+
+        ea, eb = a, b
+        while ea is not None and eb is not None:
+            for k, vb in eb.vars.items():
+                ea.vars[k] = adopt_val(ea.vars.get(k), vb)
             ea, eb = ea.parent, eb.parent
 
     def join_vals(self, va, vb, seen):
